@@ -33,6 +33,7 @@ var validators = []validator{
 	{"TestLimevcValidate_ContextValue", "extern context.WithValue / Context.Value against the recursive ctxValue model", []string{"extern context.WithValue", "method context.Context.Value"}},
 	{"TestLimevcValidate_ReflectNil", "extern reflect.ValueOf / Value.IsNil as the typed-nil test", []string{"extern reflect.ValueOf", "extern (reflect.Value).IsNil"}},
 	{"TestLimevcValidate_Intersect", "extern contracts of reflect.Value Len/Index/Interface over option slices: the postcondition proved for intersect from them is checked on the real reflect package (exhaustive for slices of length <= 3 over 3 values)", []string{"extern (reflect.Value).Index", "extern (reflect.Value).Len", "extern (reflect.Value).Interface"}},
+	{"TestLimevcValidate_URIText", "net/url behind the URI text form (textOK_URI / textOf_URI / parsed_URI are uninterpreted): accepted URIs print to a stable text that parses back, also through the wire", []string{"extern net/url.Parse", "func ParseLimeURI"}},
 	{"TestLimevcValidate_DocumentReencode", "note on extern json.Unmarshal[*Document]: an accepted document re-encodes and decodes into the same type", []string{"extern encoding/json.Unmarshal[*Document]"}},
 }
 
